@@ -321,6 +321,11 @@ pub enum WOp {
     Pause(u8),
     /// wait (bounded) until the key's current generation has been written to the device
     Settle,
+    /// (key 0 of an expiry program only) value with a TTL of one second of virtual time
+    PutShortTtl { blocks: u8, extra: u16 },
+    /// (key 0 of an expiry program only) the virtual clock jumps two seconds ahead: a generation
+    /// written by PutShortTtl expires; optionally followed by a delete of the expired key
+    Expire { then_delete: bool },
 }
 
 #[derive(Clone, Debug, Serialize, Deserialize, PartialEq, Eq)]
@@ -342,6 +347,22 @@ pub struct RaceProgram {
     pub readers: Vec<Vec<ROp>>,
     pub flush_pause_us: u16,
     pub schedule: Schedule,
+    /// key 0 gets short-TTL generations that expire under the readers (virtual clock jumps)
+    #[serde(default)]
+    pub expiry: bool,
+}
+
+fn wop_expiry() -> BoxedStrategy<WOp> {
+    prop_oneof![
+        6 => (0u8..4, 0u16..3000).prop_map(|(blocks, extra)| WOp::PutShortTtl { blocks, extra }),
+        2 => (0u8..4, 0u16..3000).prop_map(|(blocks, extra)| WOp::Put { blocks, extra }),
+        6 => any::<bool>().prop_map(|then_delete| WOp::Expire { then_delete }),
+        1 => Just(WOp::Delete),
+        1 => Just(WOp::UpdateTtl),
+        1 => (0u8..3).prop_map(WOp::Pause),
+        8 => Just(WOp::Settle),
+    ]
+    .boxed()
 }
 
 fn wop(counter: bool) -> BoxedStrategy<WOp> {
@@ -373,11 +394,15 @@ pub fn race_program_strategy() -> BoxedStrategy<RaceProgram> {
         prop_oneof![Just(0u16), Just(50), Just(400), Just(3000)],
         sched::schedule_strategy(),
     )
-        .prop_flat_map(|(cache, plain_io, data_blocks, counters, readers, flush_pause_us, schedule)| {
-            let writers: Vec<BoxedStrategy<Vec<WOp>>> = counters.iter().map(|c| proptest::collection::vec(wop(*c), 4..24).boxed()).collect();
-            (Just(cache), Just(plain_io), Just(data_blocks), Just(counters), writers, Just(readers), Just(flush_pause_us), Just(schedule))
+        .prop_flat_map(|(cache, plain_io, data_blocks, counters, readers, flush_pause_us, schedule)| (Just((cache, plain_io, data_blocks, counters, readers, flush_pause_us, schedule)), proptest::bool::weighted(0.3)))
+        .prop_flat_map(|((cache, plain_io, data_blocks, mut counters, readers, flush_pause_us, schedule), expiry)| {
+            if expiry {
+                counters[0] = false;
+            }
+            let writers: Vec<BoxedStrategy<Vec<WOp>>> = counters.iter().enumerate().map(|(i, c)| if expiry && i == 0 { proptest::collection::vec(wop_expiry(), 6..24).boxed() } else { proptest::collection::vec(wop(*c), 4..24).boxed() }).collect();
+            (Just(cache), Just(plain_io), Just(data_blocks), Just(counters), writers, Just(readers), Just(flush_pause_us), Just(schedule), Just(expiry))
         })
-        .prop_map(|(cache, plain_io, data_blocks, counters, writers, readers, flush_pause_us, schedule)| RaceProgram { cache, plain_io, data_blocks, counters, writers, readers, flush_pause_us, schedule })
+        .prop_map(|(cache, plain_io, data_blocks, counters, writers, readers, flush_pause_us, schedule, expiry)| RaceProgram { cache, plain_io, data_blocks, counters, writers, readers, flush_pause_us, schedule, expiry })
         .boxed()
 }
 
@@ -444,6 +469,10 @@ fn classify_value(key_idx: usize, counter: bool, v: &[u8]) -> ObsOutcome {
 pub fn run_race_program(p: &RaceProgram) -> RaceOutcome {
     use std::sync::atomic::AtomicU32;
     feoxdb::verif::set_thread_clock(None);
+    // expiry programs run on a virtual clock that only writer 0 moves (two seconds per jump)
+    const RACE_T0: u64 = 1_800_000_000_000_000_000;
+    let vclock = Arc::new(AtomicU64::new(RACE_T0));
+    feoxdb::verif::set_global_clock(p.expiry.then_some(RACE_T0));
     let mut cfg = conc_config(true, p.cache, p.plain_io, p.data_blocks);
     cfg.ttl = true;
     let path = env::fresh_path("race");
@@ -481,10 +510,14 @@ pub fn run_race_program(p: &RaceProgram) -> RaceOutcome {
         let (store, barrier, started, completed, writers_done) = (store.clone(), barrier.clone(), started.clone(), completed.clone(), writers_done.clone());
         let ops = p.writers[ki].clone();
         let counter = p.counters[ki];
+        let vclock = vclock.clone();
+        let expiry_mode = p.expiry && ki == 0;
         whandles.push(std::thread::spawn(move || {
             let key = race_key(ki);
             let mut states: Vec<VState> = vec![VState::Absent];
             let mut gen = 0u32;
+            // the current generation of key 0 carries the one-second TTL
+            let mut short_ttl = false;
             let mut errors: Vec<(String, String)> = Vec::new();
             let mut cur_bytes: Option<Vec<u8>> = None;
             barrier.wait();
@@ -512,7 +545,40 @@ pub fn run_race_program(p: &RaceProgram) -> RaceOutcome {
                         }
                         continue;
                     }
+                    WOp::PutShortTtl { blocks, extra } => {
+                        if !expiry_mode {
+                            continue;
+                        }
+                        gen += 1;
+                        let v = make(gen, *blocks, *extra);
+                        started[ki].store(states.len() as u32, Ordering::SeqCst);
+                        let r = store.insert_with_ttl(&key, &v, 1);
+                        states.push(VState::Stamp(gen));
+                        completed[ki].store(states.len() as u32 - 1, Ordering::SeqCst);
+                        cur_bytes = Some(v);
+                        short_ttl = true;
+                        if let Err(e) = r {
+                            errors.push(("writer-call-failed".into(), format!("insert_with_ttl on the writer's own key failed: {e:?}")));
+                        }
+                    }
+                    WOp::Expire { then_delete } => {
+                        if !expiry_mode || !short_ttl || cur == VState::Absent {
+                            continue;
+                        }
+                        started[ki].store(states.len() as u32, Ordering::SeqCst);
+                        let now = vclock.fetch_add(2_000_000_000, Ordering::SeqCst) + 2_000_000_000;
+                        feoxdb::verif::set_global_clock(Some(now));
+                        if *then_delete {
+                            // the key is expired: the delete may report not-found or remove it
+                            let _ = store.delete(&key);
+                        }
+                        states.push(VState::Absent);
+                        completed[ki].store(states.len() as u32 - 1, Ordering::SeqCst);
+                        cur_bytes = None;
+                        short_ttl = false;
+                    }
                     WOp::Put { blocks, extra } => {
+                        short_ttl = false;
                         gen += 1;
                         let v = if counter { (gen as i64).to_le_bytes().to_vec() } else { make(gen, *blocks, *extra) };
                         let next = if counter { VState::Counter(gen as i64) } else { VState::Stamp(gen) };
@@ -542,6 +608,7 @@ pub fn run_race_program(p: &RaceProgram) -> RaceOutcome {
                         if cur == VState::Absent {
                             continue;
                         }
+                        short_ttl = false;
                         started[ki].store(states.len() as u32, Ordering::SeqCst);
                         let r = if matches!(op, WOp::UpdateTtl) { store.update_ttl(&key, 3600) } else { store.persist(&key) };
                         states.push(cur.clone());
@@ -569,7 +636,7 @@ pub fn run_race_program(p: &RaceProgram) -> RaceOutcome {
                     }
                     WOp::CasSelf { blocks, extra } => {
                         let Some(curb) = cur_bytes.clone() else { continue };
-                        if counter {
+                        if counter || short_ttl {
                             continue;
                         }
                         gen += 1;
@@ -731,6 +798,7 @@ pub fn run_race_program(p: &RaceProgram) -> RaceOutcome {
     all_done.store(true, Ordering::Release);
     let _ = fh.join();
     sched::install(None);
+    let _ = &vclock;
     // judge the observations against the per-key state lists
     let mut overlapping = 0u64;
     let mut stale_seen = 0u64;
@@ -1980,6 +2048,244 @@ pub fn run_clock_program(p: &ClockProgram) -> ClockOut {
         Err(_) => {}
     }
     out
+}
+
+// ------------------------------------------------------------------------------------------
+// C08S: a reader pinned between locating and reading an extent while the key goes away
+// ------------------------------------------------------------------------------------------
+
+/// Steered scenario on a persistent store with a tiny device (freed blocks are reused at once):
+/// key K (with or without a TTL) is flushed and offloaded; a reader is parked between locating
+/// K's extent and reading it (scheduling hook after_sector_load) while the main thread makes the
+/// generation go away - overwrite, delete, TTL-only update followed by an overwrite, or expiry
+/// (virtual clock jump) followed by a delete, a lazy expiry through another read, or a sweeper
+/// pass - then flushes and writes other keys that want the freed blocks. No device write may
+/// touch the pinned blocks until the reader has left, and the reader returns the old generation,
+/// the new one, not-found or StaleExtent, never anything else.
+#[derive(Clone, Debug, Serialize, Deserialize, PartialEq, Eq)]
+pub struct PinnedProgram {
+    pub plain_io: bool,
+    pub cache: bool,
+    /// value blocks of K (0 = small)
+    pub blocks: u8,
+    /// 0 no TTL, 1 long TTL, 2 one-second TTL (expires by a clock jump)
+    pub ttl_mode: u8,
+    /// how the generation goes away: 0 overwrite, 1 delete, 2 update_ttl then overwrite,
+    /// 3 expiry + delete, 4 expiry + lazy removal by another read, 5 expiry + sweeper pass,
+    /// 6 expiry + increment / insert_if_absent re-creating the key
+    pub remover: u8,
+    /// 0 get, 1 get_bytes, 2 range_query, 3 compare_and_swap (non-matching)
+    pub reader: u8,
+    pub park_ms: u8,
+    /// keys written afterwards, each as large as K
+    pub others: u8,
+}
+
+pub fn pinned_strategy() -> BoxedStrategy<PinnedProgram> {
+    (any::<bool>(), proptest::bool::weighted(0.3), 0u8..4, 0u8..3, 0u8..7, 0u8..4, 30u8..90, 1u8..5)
+        .prop_map(|(plain_io, cache, blocks, ttl_mode, remover, reader, park_ms, others)| {
+            // expiry removers need the short TTL; the others keep the generated TTL mode
+            let ttl_mode = if remover >= 3 { 2 } else { ttl_mode.min(1) };
+            PinnedProgram { plain_io, cache, blocks, ttl_mode, remover, reader, park_ms, others }
+        })
+        .boxed()
+}
+
+#[derive(Default)]
+pub struct PinnedOut {
+    pub failure: Option<(String, String)>,
+    pub reader_was_parked: bool,
+    pub removed_while_parked: bool,
+    pub reader_result: String,
+}
+
+pub fn run_pinned_program(p: &PinnedProgram) -> PinnedOut {
+    const T0: u64 = 1_800_000_000_000_000_000;
+    let mut out = PinnedOut::default();
+    feoxdb::verif::set_thread_clock(None);
+    feoxdb::verif::set_global_clock(Some(T0));
+    let cfg = Config { persistent: true, version: 3, cache: p.cache, ttl: true, dev: DevSize::Tiny(24), max_memory: None, plain_io: p.plain_io, legacy_plain_meta: false, visible_cpus: 2 };
+    let path = env::fresh_path("pinned");
+    std::fs::File::create(&path).expect("create");
+    let dev = crate::trace::register(&path, false);
+    let finish = |out: PinnedOut, store: Option<Arc<feoxdb::FeoxStore>>, path: String| {
+        sched::install(None);
+        feoxdb::verif::set_global_clock(None);
+        crate::trace::unregister(&path);
+        match store.map(Arc::try_unwrap) {
+            Some(Ok(s)) => env::reap(Some(s), Some(path)),
+            Some(Err(s)) => env::reap(Some(s), Some(path)),
+            None => {
+                let _ = std::fs::remove_file(&path);
+            }
+        }
+        out
+    };
+    let store = match seq::open_store(&cfg, Some(&path)) {
+        Ok(s) => Arc::new(s),
+        Err(e) => {
+            out.failure = Some(("open-failed".into(), format!("{e:?}")));
+            return finish(out, None, path);
+        }
+    };
+    let make = |kid: u16, gen: u32, blocks: u8| -> Vec<u8> {
+        let mut v = vec![0u8; if blocks == 0 { 80 } else { blocks as usize * 4096 - 300 }];
+        seq::stamp_fill(&mut v, kid, gen);
+        v
+    };
+    let fail = |sig: &str, msg: String| Some((sig.to_string(), msg));
+    let key = b"pin-key".to_vec();
+    let old = make(7, 1, p.blocks);
+    let new = make(7, 2, p.blocks);
+    let r = match p.ttl_mode {
+        0 => store.insert(&key, &old).map(|_| ()),
+        1 => store.insert_with_ttl(&key, &old, 3600).map(|_| ()),
+        _ => store.insert_with_ttl(&key, &old, 1).map(|_| ()),
+    };
+    if r.is_err() || store.flush().is_err() {
+        out.failure = fail("setup-failed", "insert + flush of the first generation failed".into());
+        return finish(out, Some(store), path);
+    }
+    let t0 = std::time::Instant::now();
+    while store.verif_peek(&key).is_some_and(|k| k.resident) && t0.elapsed() < std::time::Duration::from_secs(3) {
+        std::thread::sleep(std::time::Duration::from_millis(5));
+    }
+    if store.verif_peek(&key).is_none_or(|k| k.resident || k.cached || k.sector == 0) {
+        return finish(out, Some(store), path);
+    }
+    // park the first arrival between locating the extent and reading it
+    let point = (crate::sched::POINTS.iter().position(|x| *x == "after_sector_load").unwrap_or(11) * 256 / crate::sched::POINTS.len() + 1) as u8;
+    let ctl = Controller::new(Schedule::Park { seed: 1, parks: vec![crate::sched::Park { point, nth: 0, events: 255, max_ms: p.park_ms.max(20) }] });
+    {
+        let dev = dev.clone();
+        *ctl.on_park_read.lock().unwrap() = Some(Box::new(move |sector, blocks, enter| {
+            let mut d = dev.lock().unwrap();
+            if enter {
+                d.watch_overwrite.push((sector, blocks));
+            } else if let Some(pos) = d.watch_overwrite.iter().position(|x| *x == (sector, blocks)) {
+                d.watch_overwrite.remove(pos);
+            }
+        }));
+    }
+    sched::install(Some(ctl.clone()));
+    let reader = {
+        let (store, key, kind) = (store.clone(), key.clone(), p.reader);
+        std::thread::spawn(move || -> std::result::Result<Option<Vec<u8>>, feoxdb::FeoxError> {
+            match kind {
+                0 => store.get(&key).map(Some),
+                1 => store.get_bytes(&key).map(|b| Some(b.to_vec())),
+                2 => store.range_query(b"pin-", b"pin-~", 10).map(|v| v.into_iter().find(|(k, _)| k == b"pin-key").map(|(_, v)| v)),
+                _ => store.compare_and_swap(&key, b"\x01never\x02", b"x").map(|_| None),
+            }
+        })
+    };
+    let t1 = std::time::Instant::now();
+    while ctl.parked.load(Ordering::Relaxed) == 0 && t1.elapsed() < std::time::Duration::from_millis(500) {
+        std::thread::yield_now();
+    }
+    out.reader_was_parked = ctl.parked.load(Ordering::Relaxed) > 0;
+    // the generation goes away while the reader holds its extent
+    let jump = || feoxdb::verif::set_global_clock(Some(T0 + 2_000_000_000));
+    let mut expect_new = false;
+    let removed: std::result::Result<(), String> = match p.remover {
+        0 => {
+            expect_new = true;
+            store.insert(&key, &new).map(|_| ()).map_err(|e| format!("overwrite failed: {e:?}"))
+        }
+        1 => store.delete(&key).map(|_| ()).map_err(|e| format!("delete failed: {e:?}")),
+        2 => {
+            expect_new = true;
+            let a = store.update_ttl(&key, 7200).map_err(|e| format!("update_ttl failed: {e:?}"));
+            let _ = store.flush();
+            a.and(store.insert(&key, &new).map(|_| ()).map_err(|e| format!("overwrite failed: {e:?}")))
+        }
+        3 => {
+            jump();
+            let _ = store.delete(&key);
+            Ok(())
+        }
+        4 => {
+            jump();
+            let _ = store.get(&key);
+            let _ = store.atomic_increment(b"pin-other-counter", 1);
+            Ok(())
+        }
+        5 => {
+            jump();
+            store.start_ttl_sweeper(Some(feoxdb::core::ttl_sweep::TtlConfig { sample_size: 20, expiry_threshold: 0.0, max_iterations: 16, max_time_per_run: std::time::Duration::from_millis(2), sleep_interval: std::time::Duration::from_millis(1), enabled: true }));
+            std::thread::sleep(std::time::Duration::from_millis(8));
+            Ok(())
+        }
+        _ => {
+            jump();
+            let _ = store.insert_if_absent(&key, &new);
+            let _ = store.get(&key);
+            Ok(())
+        }
+    };
+    if let Err(e) = removed {
+        out.failure = fail("writer-call-failed", e);
+    }
+    out.removed_while_parked = out.reader_was_parked && !reader.is_finished();
+    // flush: the retirement of K's old extent must wait for the reader; then other keys want room
+    let flusher = {
+        let store = store.clone();
+        std::thread::spawn(move || {
+            let _g = env::watch("pinned flush");
+            let _ = store.flush();
+        })
+    };
+    for i in 0..p.others {
+        let _ = store.insert(format!("pin-z-other-{i}").as_bytes(), &make(100 + i as u16, 1, p.blocks));
+    }
+    let _ = flusher.join();
+    {
+        let _g = env::watch("pinned flush 2");
+        let _ = store.flush();
+    }
+    let got = reader.join().ok();
+    sched::install(None);
+    let hits = dev.lock().unwrap().overwrite_hits.clone();
+    if out.failure.is_none() && !hits.is_empty() {
+        out.failure = fail("extent-overwritten-while-read", format!("device blocks {hits:?} were written while a reader was held between locating and reading that extent (generation removed by {}, reader call {})", ["overwrite", "delete", "update_ttl + overwrite", "expiry + delete", "expiry + lazy removal", "expiry + sweeper", "expiry + re-creation"][(p.remover as usize).min(6)], ["get", "get_bytes", "range_query", "compare_and_swap"][(p.reader as usize).min(3)]));
+    }
+    match got {
+        Some(Ok(Some(v))) if v == old => out.reader_result = "old".into(),
+        Some(Ok(Some(v))) if v == new && (expect_new || p.remover == 6) => out.reader_result = "new".into(),
+        Some(Ok(None)) => out.reader_result = "absent".into(),
+        Some(Err(feoxdb::FeoxError::KeyNotFound)) if p.remover != 0 && p.remover != 2 => out.reader_result = "not-found".into(),
+        Some(Err(feoxdb::FeoxError::StaleExtent)) => out.reader_result = "stale-extent".into(),
+        other => {
+            if out.failure.is_none() {
+                out.failure = fail("reader-garbage", format!("the pinned reader returned neither a generation of the key nor an admissible error: {:?}", other.map(|r| r.map(|v| v.map(|v| (v.len(), seq::stamp_check(&v).ok()))))));
+            }
+        }
+    }
+    // afterwards the key reads as its final state and the others are intact
+    if out.failure.is_none() {
+        match (store.get(&key), p.remover) {
+            (Ok(v), 0 | 2) if v == new => {}
+            (Ok(v), 6) if v == new => {}
+            // an expired generation that is still present may count as present for
+            // insert_if_absent (remover 6), which then leaves the key expired
+            (Err(feoxdb::FeoxError::KeyNotFound), 1 | 3 | 4 | 5 | 6) => {}
+            (other, _) => out.failure = fail("final-state-wrong", format!("after the scenario get(K) returns {:?} (remover {})", other.map(|v| (v.len(), v == old, v == new)), p.remover)),
+        }
+    }
+    if out.failure.is_none() {
+        for i in 0..p.others {
+            let want = make(100 + i as u16, 1, p.blocks);
+            match store.get(format!("pin-z-other-{i}").as_bytes()) {
+                Ok(v) if v == want => {}
+                Err(feoxdb::FeoxError::KeyNotFound) => {}
+                other => {
+                    out.failure = fail("neighbour-damaged", format!("key pin-z-other-{i} written after the removal reads {:?}", other.map(|v| (v.len(), seq::stamp_check(&v).ok()))));
+                    break;
+                }
+            }
+        }
+    }
+    finish(out, Some(store), path)
 }
 
 // ------------------------------------------------------------------------------------------
